@@ -790,7 +790,8 @@ func genSnapshots(o Opts, rng *rand.Rand) []genSnap {
 	}()})
 	out = append(out, mk(2, ice, func(i int) int { return 1 + i }, "two segments, small bitmaps"))
 	out = append(out, mk(3, func(i int) string { return []string{"", "a", "ab"}[i] }, func(i int) int { return 0 }, "type names of 0, 1, 2 characters"))
-	out = append(out, mk(1, func(int) string { return "ab" }, func(int) int { return 0 }, "last record shorter than ten bytes"))
+	out = append(out, genSnap{label: "last record shorter than ten bytes",
+		segs: []index.VerifCodecSeg{{ID: 300, Type: "ice", Version: 1}, {ID: 1, Type: "ab", Version: 1}}})
 	out = append(out, mk(4, func(i int) string { return []string{"abcdef", "abcdefghi", "ice", "segment-type-x"}[i] }, func(i int) int { return []int{0, 2, 7, 1}[i] },
 		"longer type names, an empty non-nil bitmap"))
 	out = append(out, mk(3, ice, func(i int) int { return []int{3, 0, 4}[i] }, "1000-entry bitmap and runs"))
